@@ -416,31 +416,55 @@ def thread_chunk(job):
         w.spawn(1, start=50)
         w.spawn(2, start=50)
         olds = [ps.Process(1), ps.Process(2)]
-        list(ps.process_iter())
+        cached = {p.pid: p for p in ps.process_iter()}
         w.reap(1)
         w.reap(2)
         w.spawn(1, start=100)
-        if seed % 2:
-            w.spawn(2, start=100)
-        for o in olds:
-            o.is_running()              # both PIDs found recycled -> _pids_reused
         out = [[], []]
-        state["out"] = out
+        state["out"], state["olds"] = out, olds
 
         def body(i):
             def f():
                 for p in ps.process_iter():
                     out[i].append(p.pid)
             return f
+        if seed % 4 >= 2:
+            # one thread iterates while the other finds the second recycled PID through
+            # is_running() on the stale object (the flag lands in the middle of the drain)
+            w.spawn(2, start=100)
+            olds[0].is_running()
+
+            def flag():
+                (cached[2] if seed % 4 == 3 else olds[1]).is_running()
+            return [body(0), flag]
+        if seed % 2:
+            w.spawn(2, start=100)
+        for o in olds:
+            o.is_running()              # both PIDs found recycled -> _pids_reused
         return [body(0), body(1)]
 
     def on_run(run, plan, err):
         rec = {"errs": [("" if t.exc is None else type(t.exc).__name__) for t in run.ts],
-               "yielded": state["out"], "listing": sorted(list(w.procs)), "plan": plan}
+               "yielded": state["out"], "listing": sorted(list(w.procs)), "plan": plan, "stale": []}
         if err is not None:
             rec["errs"] = ["deadlock: %s" % err, ""]
+        elif not any(rec["errs"]) and seed % 4 >= 2:
+            # (one iterator only: with two overlapping iterators the cache written back last wins,
+            # which ProcIter.tla takes as the new baseline)
+            # quiescent again: within three further passes every listed PID is served by a
+            # fresh object (the signed finding costs one pass)
+            try:
+                for _ in range(3):
+                    final = list(ps.process_iter())
+                rec["stale"] = sorted(p.pid for p in final if p != ps.Process(p.pid))
+            except Exception as ex:  # noqa: BLE001
+                rec["errs"] = ["afterwards: " + type(ex).__name__, ""]
         recs.append(rec)
 
+    if seed % 4 >= 2:
+        # the flagging variant: every schedule with ONE pre-emption (the iterator interrupted at
+        # each of its steps by the complete is_running(), and the other way round)
+        bound, limit = 1, 1500
     sched.explore(make_bodies, ("psutil/__init__.py",), bound=bound, limit=limit, rnd=rnd, on_run=on_run)
     return recs
 
@@ -460,7 +484,7 @@ def check_threads(ctx, thorough):
     tf = os.path.join(d, "t.ndjson")
     with open(tf, "w") as f:
         for r0 in recs:
-            f.write(json.dumps({k: r0[k] for k in ("errs", "yielded", "listing")}) + "\n")
+            f.write(json.dumps({k: r0[k] for k in ("errs", "yielded", "listing", "stale")}) + "\n")
     cfg = os.path.join(d, "t.cfg")
     tlc.write_cfg(cfg, {}, invariants=["Accepted"])
     r = tlc.run("ProcIterDrainTrace", cfg, workers=1, env={"TRACE_FILE": tf}, timeout=900)
@@ -475,9 +499,10 @@ def check_threads(ctx, thorough):
     for tag, body in [p for p in r.printed if p[0] == "REJECTED"][:3]:
         vals = tlc.parse_value("<<" + body + ">>")
         r0 = recs[vals[0] - 1]
-        names = [n for n, ok in zip(["NoError", "Ordered", "Listed"], vals[1]) if not ok]
+        names = [n for n, ok in zip(["NoError", "Ordered", "Listed", "Fresh"], vals[1]) if not ok]
         ctx.disagree("threads:" + ",".join(names) + ":" + ",".join(e for e in r0["errs"] if e),
-                     "two threads iterating at once (schedule %s): errors %s, yielded %s" % (r0["plan"], r0["errs"], r0["yielded"]), r0)
+                     "two threads at once (schedule %s): errors %s, yielded %s; PIDs still served by the object of their "
+                     "former owner three passes later: %s" % (r0["plan"], r0["errs"], r0["yielded"], r0["stale"]), r0)
 
 
 def replay(ctx, data):
